@@ -9,6 +9,9 @@
 //!   pp   <bits>                       slice::partition_point on a boolean slice (`_` = empty)
 //!   hidx rd|ix <frames> <gzi> <ops>   as hist, over a HOSTILE gzi index of the file (model run_bs;
 //!                                     the verdict only demands the absence of panics)
+//!   hread <filehex> <n,n,...>         a fresh Reader over damaged bytes, read calls (< 65536-byte
+//!                                     buffers) that go on after errors; obs = per call
+//!                                     `<count|Err>@<position told>`; model = SeekBytes.hread_run
 //!   hseek <frames|_> <filehex> <ops> <c>:<u>   a valid history, then ONE seek to an arbitrary
 //!                                     virtual position; obs = `<seek result>@<position told>`;
 //!                                     model = NV.Bgzf.SeekBytes.hseek_run (byte-level seek with
@@ -1124,6 +1127,51 @@ fn run_hseek(c: &Case) -> Obs {
     Obs::ok(obs, bytes.len() > 28).with_verdict(verdict)
 }
 
+/// A fresh Reader over arbitrary (damaged) bytes and a sequence of `read` calls with buffers of
+/// fewer than 65536 bytes that goes on after errors: obs = per call `<count or Err>@<position told>`,
+/// compared with NV.Bgzf.SeekBytes.hread_run.  Property side: no panic, and a failed call never
+/// moves the told position backwards (the failed block is not the current block).
+fn run_hread(c: &Case) -> Obs {
+    let bytes = nv::unhex(&c.args[0]);
+    let ns: Vec<usize> = if c.args[1] == "_" { vec![] } else { c.args[1].split(',').map(|x| x.parse().unwrap()).collect() };
+    let mut r = bgzf::io::Reader::new(Cursor::new(bytes.clone()));
+    let mut obs = Vec::new();
+    let mut verdict = Ok(());
+    let mut delivered: Vec<u8> = Vec::new();
+    for (j, &n) in ns.iter().enumerate() {
+        let before = u64::from(r.virtual_position());
+        let mut buf = vec![SENTINEL; n];
+        let got = guarded(AssertUnwindSafe(|| Read::read(&mut r, &mut buf)));
+        let vp = match guarded(AssertUnwindSafe(|| r.virtual_position())) {
+            Outcome::Done(v) => Some(v),
+            Outcome::Panicked(_) => None,
+        };
+        let g = match &got {
+            Outcome::Done(Ok(k)) => {
+                delivered.extend_from_slice(&buf[..*k]);
+                k.to_string()
+            }
+            Outcome::Done(Err(e)) => format!("Err:{}", errkind(e)),
+            Outcome::Panicked(_) => "Panic".into(),
+        };
+        obs.push(format!("{g}@{}", vp.map_or("Panic".to_string(), |v| format!("{}:{}", v.compressed(), v.uncompressed()))));
+        if matches!(got, Outcome::Panicked(_)) || vp.is_none() {
+            verdict = Err(("damaged-file-read-panic".to_string(), format!("read#{j}({n})")));
+            break;
+        }
+        if let (Outcome::Done(Err(_)), Some(v)) = (&got, vp) {
+            if u64::from(v) < before && verdict.is_ok() {
+                verdict = Err((
+                    "failed-block-stays-current".to_string(),
+                    format!("read#{j}({n}) failed and the told position went from {before} back to {}", u64::from(v)),
+                ));
+            }
+        }
+    }
+    let o = if obs.is_empty() { "_".to_string() } else { obs.join(" ") };
+    Obs::ok(o, bytes.len() > 28 && ns.len() >= 2).with_verdict(verdict)
+}
+
 fn run(c: &Case) -> Obs {
     match c.kind.as_str() {
         "hist" => run_hist(c),
@@ -1133,6 +1181,7 @@ fn run(c: &Case) -> Obs {
         "pp" => run_pp(c),
         "hidx" => run_hidx(c),
         "hseek" => run_hseek(c),
+        "hread" => run_hread(c),
         k => Obs::fail("-", "harness-unknown-kind", k),
     }
 }
@@ -1764,6 +1813,63 @@ fn generate(rng: &mut Rng, tier: &str, w: &mut CaseWriter) {
             let u = *rng.pick(&[0u16, 1, 5, 65535]);
             w.push("hseek", vec!["_".into(), hex(&bytes), "_".into(), format!("{c}:{u}")]);
         }
+    }
+    // ---- reads that go on after errors over damaged files (fix da5f8c7)
+    {
+        // the scenario of the fix: "noodles" block, "bgzf" block with one CRC bit flipped, EOF
+        let mut bytes = writer_frame(b"noodles", 6);
+        let at = bytes.len();
+        bytes.extend_from_slice(&writer_frame(b"bgzf", 6));
+        let l2 = bytes.len();
+        bytes[l2 - 8] ^= 1;
+        bytes.extend_from_slice(&EOF_MARKER);
+        let _ = at;
+        w.push("hread", vec![hex(&bytes), "7,4,4,4".into()]);
+        w.push("hread", vec![hex(&bytes), "3,100,4,4".into()]);
+    }
+    let n_hr = if thorough { 4000 } else { 240 };
+    for _ in 0..n_hr {
+        let nf = rng.range(1, 4) as usize;
+        let mut frames: Vec<Vec<u8>> = Vec::new();
+        for _ in 0..nf {
+            let d = pattern(*rng.pick(&[0usize, 1, 5, 40, 300]) + rng.below(3) as usize * usize::from(rng.chance(1, 2)), rng.below(251), rng.range(1, 250));
+            frames.push(if rng.chance(1, 2) { writer_frame(&d, rng.below(10) as u8) } else { hand_frame(&d, rng.below(10) as u32) });
+        }
+        if rng.chance(2, 3) {
+            frames.push(EOF_MARKER.to_vec());
+        }
+        for _ in 0..rng.range(1, 2) {
+            let k = rng.below(frames.len() as u64) as usize;
+            let flen = frames[k].len();
+            if flen < 28 {
+                continue;
+            }
+            let fr = &mut frames[k];
+            match rng.below(8) {
+                0 => fr[rng.below(16) as usize] ^= 1 << rng.below(8),
+                1 => {
+                    let b = *rng.pick(&[0u16, 24, 25, (flen - 2) as u16, flen as u16, 65535]);
+                    fr[16..18].copy_from_slice(&b.to_le_bytes());
+                }
+                2 | 3 => fr[18 + rng.below((flen - 26).max(1) as u64) as usize] ^= 1 << rng.below(8),
+                4 | 5 => fr[flen - 8 + rng.below(4) as usize] ^= 1 << rng.below(8),
+                6 => {
+                    let cur = u32::from_le_bytes(fr[flen - 4..].try_into().unwrap());
+                    let v = *rng.pick(&[0u32, 1, 65536, 65537, u32::MAX, cur.wrapping_add(1), cur.saturating_sub(1)]);
+                    fr[flen - 4..].copy_from_slice(&v.to_le_bytes());
+                }
+                _ => {
+                    let cut = rng.range(1, 30).min(flen as u64 - 1) as usize;
+                    fr.truncate(flen - cut);
+                }
+            }
+        }
+        let mut bytes: Vec<u8> = frames.concat();
+        if rng.chance(1, 8) {
+            bytes.extend_from_slice(&pattern(rng.range(1, 30) as usize, 31, 108));
+        }
+        let ns: Vec<String> = (0..rng.range(3, 10)).map(|_| rng.pick(&[1usize, 3, 7, 100, 4096, 65535]).to_string()).collect();
+        w.push("hread", vec![hex(&bytes), ns.join(",")]);
     }
 }
 
